@@ -484,7 +484,9 @@ class Beam(_Simu):
         center = (rho_e_p * area_e_pg * wJ_e_pg * coordo_e_p / mass).sum(axis=(0, 1))
 
         if not isinstance(self.rho, np.ndarray):
-            diff = np.linalg.norm(center - mesh.center) / np.linalg.norm(center)
+            # relative to the size of the coordinates: the center itself may be the origin
+            size = np.linalg.norm(mesh.coord, axis=1).max()
+            diff = np.linalg.norm(center - mesh.center) / size
             assert diff < 1e-12
 
         return center
